@@ -19,8 +19,8 @@ ASSUMPTIONS = [
     "fixed centres compared with 1e-9 x die size (the code re-centres by (c-h)+h: a 1-ulp drift is not a move); containment with 1e-12 relative slack",
     "trial costs (total pairwise disc overlap + half the wire length) are recomputed by the harness independently of the library",
 ]
-CASES = {"quick": 1600, "thorough": 250000}
-MIN_CASES = {"quick": 150, "thorough": 4000}
+CASES = {"quick": 6400, "thorough": 250000}
+MIN_CASES = {"quick": 1500, "thorough": 4000}
 REQUIRED_CLASSES = ["layout", "algorithm"]
 REQUIRED_COUNTERS = ["layouts_judged", "determinism_checked", "fixed_modules_checked", "centres_checked", "algorithm_runs_judged", "trials_recorded", "selection_checked", "algorithm_runs_after_earlier_queries"]
 
